@@ -188,7 +188,7 @@ def gen(rng, fmt):
     elif fmt == "krome":
         r["reac"] = pick_species(rng, GASN, rng.choice([1, 2, 3]))
         r["prod"] = pick_species(rng, GASN, rng.choice([1, 2, 3, 4]))
-        wt = rng.choice(["plain", "none", "ops", "dexp"])
+        wt = rng.choice(["plain", "none", "ops", "dexp", "signed-exp"])
         lt2, ut2 = rng.choice([(10, 300), (2.73, 1e4), (100, 41000)])
         if wt == "plain":
             r["tmin_text"], r["tmax_text"] = repr(float(lt2)), repr(float(ut2))
@@ -197,6 +197,11 @@ def gen(rng, fmt):
             lt2, ut2 = -1.0, -1.0
         elif wt == "ops":
             r["tmin_text"], r["tmax_text"] = rng.choice([">", ".GE.", ".GT."]) + repr(float(lt2)), rng.choice(["<", ".LE.", ".LT."]) + repr(float(ut2))
+        elif wt == "signed-exp":
+            # exponents written with an explicit sign, as Fortran list output does
+            r["tmin_text"], r["tmax_text"] = rng.choice(["1.0d+1", ".GE.1.0e+01", ">2.5d+1"]), rng.choice(["1.5d+4", ".LE.1.0d+4", "<1e+16", "4.1E+04"])
+            lt2 = {"1.0d+1": 10.0, ".GE.1.0e+01": 10.0, ">2.5d+1": 25.0}[r["tmin_text"]]
+            ut2 = {"1.5d+4": 15000.0, ".LE.1.0d+4": 10000.0, "<1e+16": 1e16, "4.1E+04": 41000.0}[r["tmax_text"]]
         else:
             r["tmin_text"], r["tmax_text"] = "1.d1", "1.5d4"
             lt2, ut2 = 10.0, 15000.0
